@@ -135,7 +135,7 @@ def chain_levels(idx):
 # Branch-ending family: an if-chain inside a loop where EVERY branch independently ends in nothing / break /
 # continue / return (so that e.g. all branches before the else leave the chain by a jump of their own).
 
-ENDINGS = ('none', 'break', 'continue', 'return', 'empty', 'comment-only')
+ENDINGS = ('none', 'break', 'continue', 'return', 'empty', 'comment-only', 'nested-if', 'nested-while', 'nested-for')
 BE_LOOPS = ('while', 'for', 'forc', 'while1', 'while1r')
 BE_CONDS = ('cc', '1', '0')
 BE_SHAPES = (('if', 1, False), ('ifelse', 1, True), ('ifelif', 2, False), ('ifelifelse', 2, True))
@@ -149,7 +149,7 @@ def branch_end_specs():
     for loop in BE_LOOPS:
         for shape, nconds, has_else in BE_SHAPES:
             nb = nconds + (1 if has_else else 0)
-            for ends in itertools.product(range(len(ENDINGS)), repeat=nb):
+            for ends in itertools.product(range(6), repeat=nb):
                 for scope in BE_SCOPES:
                     for wrap in BE_WRAPS:
                         out.append({'loop': loop, 'shape': shape, 'ends': list(ends), 'scope': scope, 'wrap': wrap, 'cond0': 'cc', 'tail': 'log'})
@@ -158,6 +158,12 @@ def branch_end_specs():
                 for tail in BE_TAILS[1:]:
                     for scope in BE_SCOPES:
                         out.append({'loop': loop, 'shape': shape, 'ends': list(ends), 'scope': scope, 'wrap': 'plain', 'cond0': 'cc', 'tail': tail})
+            # branch bodies ending in a nested construct (mixed with plain / break endings), plain surroundings
+            for ends in itertools.product((0, 1, 6, 7, 8), repeat=nb):
+                if not any(e >= 6 for e in ends):
+                    continue
+                for scope in BE_SCOPES:
+                    out.append({'loop': loop, 'shape': shape, 'ends': list(ends), 'scope': scope, 'wrap': 'plain', 'cond0': 'cc', 'tail': 'log'})
             # literal first conditions (a parser may be tempted to special-case them): plain surroundings only
             for ends in itertools.product(range(4), repeat=nb):
                 for cond0 in BE_CONDS[1:]:
@@ -179,6 +185,13 @@ def build_branch_end(spec):
             return [('continue',)]
         if kind == 'return':
             return [('return', ('str', 'ret'))]
+        # the branch body ENDS in a nested construct (its closing keyword is directly followed by elif/else/endif)
+        if kind == 'nested-if':
+            return [('if', [(CC, [log()])], None)]
+        if kind == 'nested-while':
+            return [('while', CC, [log()])]
+        if kind == 'nested-for':
+            return [('for', 'w2', None, ('call', 'arrayNew', [('num', 1)]), [log()])]
         return []
 
     def branch(e):
